@@ -18,6 +18,7 @@ macro_rules! strict_ops {
             use open_hypergraphs::strict::hypergraph::arrow::*;
             use open_hypergraphs::strict::hypergraph::*;
             use open_hypergraphs::strict::open_hypergraph::*;
+            #[cfg(feature = "hooks")]
             use open_hypergraphs::strict::verif_hooks as hooks;
             use open_hypergraphs::strict::{eval::eval, layer::layer, layer::layered_operations};
             use std::ops::Bound;
@@ -487,6 +488,44 @@ macro_rules! strict_ops {
                     "icf_flatmap" => ok(e_icf(&d_icf(&a[0])?.flatmap(&d_icf(&a[1])?))),
                     "icf_flatmap_sources" => ok(e_icf(&d_icf(&a[0])?.flatmap_sources(&d_icf(&a[1])?))),
                     "ics_flatmap_sources" => ok(e_ics(&d_ics(&a[0])?.flatmap_sources(&d_ics(&a[1])?))),
+                    "icf_iter_script" => {
+                        // each k is one call of nth(k) (k = 0 is next()); also exercises skip / count / last
+                        let c = d_icf(&a[0])?;
+                        let ks = d_nats(&a[1])?;
+                        let mut it = c.clone().into_iter();
+                        let mut out = vec![];
+                        for &k in ks.iter() {
+                            let x = it.nth(k);
+                            let n = it.len();
+                            assert!(it.size_hint() == (n, Some(n)), "size_hint != len");
+                            out.push(e_pair(e_opt(x, |f| e_ff(&f)), Sx::N(n)));
+                        }
+                        if let Some(&k) = ks.first() {
+                            let total = c.clone().into_iter().count();
+                            assert!(c.clone().into_iter().skip(k).count() == total.saturating_sub(k), "skip/count");
+                            let l = c.clone().into_iter().last().map(|f| e_ff(&f));
+                            let l2 = if total == 0 { None } else { c.clone().into_iter().nth(total - 1).map(|f| e_ff(&f)) };
+                            assert!(l == l2, "last != nth(len-1)");
+                        }
+                        ok(Sx::L(out))
+                    }
+                    "ics_iter_script" => {
+                        let c = d_ics(&a[0])?;
+                        let ks = d_nats(&a[1])?;
+                        let mut it = c.clone().into_iter();
+                        let mut out = vec![];
+                        for &k in ks.iter() {
+                            let x = it.nth(k);
+                            let n = it.len();
+                            assert!(it.size_hint() == (n, Some(n)), "size_hint != len");
+                            out.push(e_pair(e_opt(x, |u| e_arr(&u.0)), Sx::N(n)));
+                        }
+                        if let Some(&k) = ks.first() {
+                            let total = c.clone().into_iter().count();
+                            assert!(c.clone().into_iter().skip(k).count() == total.saturating_sub(k), "skip/count");
+                        }
+                        ok(Sx::L(out))
+                    }
                     "icf_iter" => {
                         let mut it = d_icf(&a[0])?.into_iter();
                         let mut out = vec![];
@@ -640,31 +679,44 @@ macro_rules! strict_ops {
                     "ohg_is_monogamous" => ok(e_bool(d_ohg(&a[0])?.is_monogamous())),
                     "ohg_is_acyclic" => ok(e_bool(d_ohg(&a[0])?.is_acyclic())),
                     // ---------------- graph, layering, eval ----------------
+                    #[cfg(feature = "hooks")]
                     "g_converse" => ok(e_icf(&hooks::converse(&d_icf(&a[0])?))),
+                    #[cfg(feature = "hooks")]
                     "g_operation_adjacency" => ok(e_icf(&hooks::operation_adjacency(&d_hg(&a[0])?))),
+                    #[cfg(feature = "hooks")]
                     "g_node_adjacency" => ok(e_icf(&hooks::node_adjacency(&d_hg(&a[0])?))),
+                    #[cfg(feature = "hooks")]
                     "g_indegree" => ok(e_ff(&hooks::indegree(&d_icf(&a[0])?))),
+                    #[cfg(feature = "hooks")]
                     "g_kahn" => {
                         let (o, u) = hooks::kahn(&d_icf(&a[0])?);
                         ok(e_pair(e_arr(&o), e_arr(&u)))
                     }
+                    #[cfg(feature = "hooks")]
                     "g_dense_relative_indegree" => ok(e_ff(&hooks::dense_relative_indegree(&d_icf(&a[0])?, &d_ff(&a[1])?))),
+                    #[cfg(feature = "hooks")]
                     "g_sparse_relative_indegree" => {
                         let (i, c) = hooks::sparse_relative_indegree(&d_icf(&a[0])?, &d_ff(&a[1])?);
                         ok(e_pair(e_ff(&i), e_ff(&c)))
                     }
+                    #[cfg(feature = "hooks")]
                     "g_filter" => ok(e_arr(&hooks::filter::<K>(&d_arr(&a[0])?, &d_arr(&a[1])?))),
+                    #[cfg(feature = "hooks")]
                     "f_map_half_spider" => ok(e_ff(&hooks::map_half_spider(&d_ics(&a[0])?, &d_ff(&a[1])?))),
+                    #[cfg(feature = "hooks")]
                     "f_to_operations" => ok(e_ops(&hooks::to_operations(&d_ohg(&a[0])?))),
+                    #[cfg(feature = "hooks")]
                     "f_spider_map_arrow" => ok(e_ohg(&hooks::spider_map_arrow(
                         &d_ohg(&a[0])?,
                         d_ics(&a[1])?,
                         d_ohg(&a[2])?,
                     ))),
+                    #[cfg(feature = "hooks")]
                     "f_interleave_blocks" => {
                         let r: OHG = hooks::interleave_blocks(&d_ics(&a[0])?, &d_ics(&a[1])?);
                         ok(e_ohg(&r))
                     }
+                    #[cfg(feature = "hooks")]
                     "f_partial_dagger" => ok(e_ohg(&hooks::partial_dagger(
                         &d_ohg(&a[0])?,
                         &d_ics(&a[1])?,
